@@ -33,7 +33,7 @@ class State:
     def __init__(s):
         s.frames = []; s.objs = {}; s.pc = []; s.next_obj = 0; s.exc = None; s.caught = []
         s.draws = []; s.observes = []; s.sid = next(_sid); s.model = None; s.steps = 0
-        s.nchoice = 0; s.notes = []; s.tasks = None; s.decisions = 0; s.clock = None; s.loopcnt = {}; s.fidx = 0
+        s.nchoice = 0; s.notes = []; s.tasks = None; s.decisions = 0; s.clock = None; s.loopcnt = {}; s.fidx = 0; s.facts = {}
     def clone(s):
         n = State()
         s.sid = next(_sid)      # objects owned so far become shared by both states (copy on write)
@@ -42,7 +42,7 @@ class State:
         n.draws = list(s.draws); n.observes = list(s.observes); n.model = s.model; n.steps = s.steps
         n.nchoice = s.nchoice; n.notes = list(s.notes); n.decisions = s.decisions; n.clock = s.clock
         n.tasks = None if s.tasks is None else {k: (set(a), set(b)) for k, (a, b) in s.tasks.items()}
-        n.loopcnt = dict(s.loopcnt); n.fidx = s.fidx
+        n.loopcnt = dict(s.loopcnt); n.fidx = s.fidx; n.facts = dict(s.facts)
         return n
 
 class Engine:
@@ -160,14 +160,21 @@ class Engine:
         """bad: z3 Bool (or python bool) describing the violation on this path.  Records the result; afterwards assumes not bad."""
         if isinstance(bad, bool) or isinstance(bad, int):
             if not bad: s.vc_count(kind, 'trivial'); return
-            s.record_violation(st, kind, msg, None)
+            s.vc_count(kind, 'violated')
+            s.record_violation(st, kind, msg, s.any_model(st))
             raise PathEnd('violation')
+        key = bad.get_id()
+        fk = st.facts.get(key)
+        if fk is not None and fk[1] is False:
+            s.vc_count(kind, 'proved'); s.stats['fact_hits'] = s.stats.get('fact_hits', 0) + 1
+            return
         ms = s.model_says(st, bad)
         if ms is True:
             r, m = 'sat', st.model
         else:
             r, m = s.query(st, bad)
         if r == 'unsat':
+            st.facts[key] = (bad, False)    # the term is kept alive: z3 reuses AST ids of freed terms
             s.vc_count(kind, 'proved')
             s.maybe_dump(st, bad, kind, msg)
         elif r == 'sat':
@@ -585,6 +592,11 @@ class Engine:
         """decide a symbolic condition (z3 Bool): returns python bool, forking when both sides are feasible"""
         if z3.is_true(cond): return True
         if z3.is_false(cond): return False
+        key = cond.get_id()
+        kn = st.facts.get(key)
+        if kn is not None:
+            s.stats['fact_hits'] = s.stats.get('fact_hits', 0) + 1
+            return kn[1]
         tf, ff, mt, mf = s.feasible2(st, cond)
         if tf is None or ff is None:
             s.stats['unknown_branch'] = s.stats.get('unknown_branch', 0) + 1
@@ -595,6 +607,7 @@ class Engine:
             if st.fidx < len(s.forced):
                 # forced decision prefix (work splitting across processes): follow one side only
                 d = s.forced[st.fidx]; st.fidx += 1
+                st.facts[key] = (cond, bool(d))
                 if d:
                     if mt is not None: st.model = mt
                     s.add_pc(st, cond)
@@ -605,14 +618,15 @@ class Engine:
                 return bool(d)
             s.stats['forks'] += 1
             other = st.clone()
+            other.facts[key] = (cond, False); st.facts[key] = (cond, True)
             other.decisions += 1; st.decisions += 1
             other.pc.append(z3.Not(cond)); other.model = mf if mf is not None else (None if s.model_says(st, cond) is not False else st.model)
             s.pending.append((other, False))
             if mt is not None: st.model = mt
             s.add_pc(st, cond)
             return True
-        if tf: s.add_pc_implied(st, cond); return True
-        if ff: s.add_pc_implied(st, z3.Not(cond)); return False
+        if tf: st.facts[key] = (cond, True); s.add_pc_implied(st, cond); return True
+        if ff: st.facts[key] = (cond, False); s.add_pc_implied(st, z3.Not(cond)); return False
         raise PathEnd('infeasible')
     def add_pc_implied(s, st, c):
         st.pc.append(c)     # implied by the current constraints: recorded for merges/dumps, solver not burdened
@@ -960,12 +974,13 @@ class Engine:
         for e in extra: s.add_pc(st, e)
         st.model = s1.model
     def exec_side(s, st):
-        H = s.H; lim = s.stops[-1][3]
+        H = s.H; lim = s.stops[-1][3]; tb = s.cfg['time_budget']
         while True:
             fr = st.frames[-1]
             ins = fr.blk.ins[fr.ip]
             st.steps += 1
             if st.steps > lim: raise NeedFork()
+            if not (st.steps & 255) and tb and time.time() - s.t0 > tb: s.bound_hit(st, 'exploration budget (path cut)')
             H[ins.op](st, fr, ins)
     def snapshot(s):
         return (dict((k, dict(v)) for k, v in s.vc.items()), len(s.violations), dict(s.viol_keys), dict(s.covers), dict(s.bound_hits), len(s.unknown_vcs), len(s.smt_dump))
